@@ -99,11 +99,11 @@ CHECKS = {
         "(silent, no score, since restarts at 0, reference := former test window); a score is computed exactly on sliding updates with (n-1)%step=0; drift "
         "iff the embedded Page-Hinkley (threshold pyRound(.01w), burn-in 0) alarms on the max score; online_scaling never read by the control flow; "
         "per-component supports shared by reference and test histograms; over ordered fields: histogram = relative bin counts, intersection of identical "
-        "windows = 0, score in [0,1]; for every carrier the clamped intersection score is never negative. Tied to pca_cd.py by a per-update correspondence "
+        "windows = 0, score in [0,1]; for every carrier the clamped intersection score is never negative; over the reals the standardise / un-standardise round trip of the online scaler (zero-variance rule included) is the identity, so the adopted reference is the raw former test window. Tied to pca_cd.py by a per-update correspondence "
         "(both metrics, scaling on/off, repeated-window streams, several drifts) and a 1904-configuration parameter sweep.",
-   note="Trusted oracles: sklearn StandardScaler / PCA / KernelDensity and scipy jensenshannon, recomputed by the harness from the raw stream with public API "
+   note="Trusted oracles: sklearn PCA / KernelDensity and scipy jensenshannon (and StandardScaler inside the schedule; its model Model/Scaler.lean is tied to sklearn by a differential run), recomputed by the harness from the raw stream with public API "
         "(num_pcs, projections, KDE-JS values are model inputs). Float rounding / numpy summation order not covered (rel 1e-9). Excluded: window_size=0, "
-        "round(sample_period*w)<=0, constant components, NaN/inf.",
+        "round(sample_period*w)<=0, windows in which every feature is constant, NaN/inf.",
    technique="Lean 4 proof (invariants and induction over the update list, explicit epoch descriptions, ordered-field algebra) + differential correspondence with model-directed oracle scheduling + clauses on implementation traces",
    ref="§7 C11"),
  "C12": dict(
@@ -199,7 +199,7 @@ CHECKS = {
    ref="§7 C08"),
  "C09": dict(
    text="Lean 4 theorems on the kdq detector model (bootstrap draws as inputs): streaming phases (first w samples build the tree, silent for a further w), "
-        "counter = length of the current uninterrupted run of exceeding evaluations over every history, drift iff that run > persistence*window, restart after "
+        "counter = length of the current uninterrupted run of exceeding evaluations over every history, drift iff that run > persistence*window (over ordered fields: iff run > floor(persistence*window), a floored never a rounded bound), restart after "
         "drift; batch drift iff KL(ref||batch) > critical, drifted batch adopted as reference, set_reference; the critical value is the nearest-rank "
         "(1-alpha) order statistic of the bootstrap divergences, sample size = reference size. Tied to kdq_tree.py by correspondence with recorded "
         "np.random.choice draws plus an independent monitor that recomputes divergence and decisions from the public per-node counts.",
